@@ -32,6 +32,7 @@ const (
 	KSlice              // []Elem
 	KAlias              // type Name = Elem
 	KBasic              // the predeclared type int (identity = value)
+	KRaw                // a type given as Go source text (Name) with an explicit identity key (RawKey) and value expression (RawValue)
 )
 
 type Field struct {
@@ -50,6 +51,8 @@ type Type struct {
 	PtrRecv bool    // KLeaf/KAgg: methods have pointer receivers
 	Impls   []*Type // KLeaf/KAgg: interfaces implemented
 	Embeds  []*Type // KIface: embedded interfaces
+	RawKey   string // KRaw: type identity (two spellings of one type share it)
+	RawValue string // KRaw: an expression of the type
 	Partial bool    // KLeaf/KAgg: implements only the explicitly declared methods of its Impls, not those of embedded interfaces
 }
 
@@ -68,6 +71,8 @@ func (t *Type) Key() string {
 		return t.Elem.Key()
 	case KBasic:
 		return "int"
+	case KRaw:
+		return t.RawKey
 	default:
 		return t.Pkg.Path() + "." + t.Name
 	}
